@@ -157,11 +157,24 @@ def bounded(tier, seed):
     for name, aspect, nt in CHECKS:
         out.append(retag(run_cases(name, cases, R.aspect_oracle(aspect), lambda c, nt=nt: bool(nt(R.info_of(c))), RULES[name], bound, sig=str, max_viol=10 ** 6,
                              relates="write_pdb|write_cif|parse_pdb_atoms|parse_cif_atoms|_format_pdb_atom_line")))
+    def at_a_limit(sd):  # tables that touch the largest / smallest value a PDB column holds come first
+        recs = R.synthetic(sd)[0]
+        return bool(recs) and (max(r["resnum"] for r in recs) == 9999 or min(r["resnum"] for r in recs) == -999 or max(r["serial"] for r in recs) >= 99990)
+    ordered = sorted(seeds, key=lambda sd: not at_a_limit(sd))
+    sub = ordered[:40] if tier == "quick" else ordered[:400]
+    out.append(retag(run_cases("splitter-main", sub, R.splitter_case, lambda c: True,
+                               "splitter.main in-process on the PDB and the mmCIF text of the table, --format PDB / mmCIF / keep: every written model file, read back, holds "
+                               "exactly the rows of that model (all fields of the round trip; the data fit PDB field widths, so fitting must change nothing)",
+                               f"{len(sub)} generated tables x 2 input formats x 3 output formats", sig=str, max_viol=10 ** 6,
+                               relates="write_pdb|write_cif|parse_pdb_atoms|parse_cif_atoms|fit_to_pdb")))
     R.evaluate.cache_clear()
     return out
 
 
 def replay(inp):
+    if inp["check"] == "splitter-main":
+        errs = R.splitter_case(int(inp["case"]))
+        return {"fails": bool(errs), "errors": errs[:3]}
     aspect = dict((n, a) for n, a, _ in CHECKS)[inp["check"]]
     errs = R.replay_case(aspect, inp["case"])
     return {"fails": bool(errs), "errors": errs[:3]}
